@@ -267,7 +267,7 @@ func c11Run(c *core.Case, o *core.Outcome) {
 			} else if sigma >= R {
 				sc = "max"
 			}
-			o.Sig("api=%v:w=%d:f=%v:v=1e%d:n=2^%d:peak=%s:sigma=%s", viaRates, nw > 0, f, int(math.Log10(vol)), int(math.Log2(float64(n)))/2*2, pc, sc)
+			o.Sig("api=%v:w=%v:f=%v:v=1e%d:n=2^%d:peak=%s:sigma=%s", viaRates, nw > 0, f, int(math.Log10(vol)), int(math.Log2(float64(n)))/2*2, pc, sc)
 		}
 		if si == 0 {
 			o.Sample = map[string]any{"settings": desc, "window_sums": sums, "error_over_bound": bestErr}
